@@ -55,6 +55,10 @@ func (e *engine) runSQL(workers int) {
 func rejectBucket(err error) string {
 	m := err.Error()
 	switch {
+	case strings.Contains(m, "expression is invalid"):
+		return "nil_operand_in_expression"
+	case strings.Contains(m, "duration") && strings.Contains(m, "out of range"):
+		return "duration_out_of_range"
 	case strings.Contains(m, "order by field not in select"):
 		return "order_by_not_in_select"
 	case strings.Contains(m, "function not support order by"):
@@ -1038,25 +1042,43 @@ func (e *engine) runTrees(workers int) {
 	e.flush(a)
 }
 
-// runRegressionTexts parses a fixed list of statements that reach the corners the random generator reaches
-// only with small probability, so that every run (any seed, any tier) exercises them.
+// runRegressionTexts parses two fixed lists of statements, so that every run (any seed, any tier) exercises them:
+// ordinary statements that reach corners the random generator reaches only with small probability (they must be
+// accepted), and the statements that used to be accepted with a tree that cannot cross the wire (fixed in /repo by
+// 2fb7f78, ba1e921, 523a56a: they are parse errors now). The latter are not required to be rejected - the property
+// only speaks about accepted statements - but whenever one is accepted again it goes through the full wire check.
 func (e *engine) runRegressionTexts() {
 	tr := "where time>'20190410 00:00:00' and time<'20190410 10:00:00'"
-	texts := []string{
-		"select f + 1h from cpu " + tr,
-		"select (1h) from cpu " + tr,
-		"select * + f from cpu " + tr,
-		"select f from cpu " + tr + " group by time(9223372036854776s)",
-		"select f + 9" + strings.Repeat("9", 320) + " from cpu " + tr,
+	mustAccept := []string{
 		"select f + 1234567890123.4567, g * -0.1, 17.000001 / h from cpu " + tr,
 		"select max(sum(c)+c*d/e) as x, stddev(max(sum(c))) from memory " + tr + " and (host='a' or ip in ('1','2') and region not like 'sh%') group by host,time(1m) having (sum(c) > 100.5 or max(d) <= 3) and x != 0 order by sum(c) desc limit 0",
 		"select f from cpu where host=~'/1.1.*.1/' and dc !~ 'x\\\\y' and time > '20190410 00:00:00' and time < '20190411 00:00:00' group by time() limit 2147483647",
 		"show tag values from 'cpu' on 'ns' with key = 'key1' where key1='value1' and key2 in ('a','') limit 10",
 		"show metrics on 'ns' where metric='abc' limit 10",
+		"select f from cpu " + tr + " group by time(106751991167d), time(292471208y)", // largest durations that do not overflow
+		"select f * 1" + strings.Repeat("0", 308) + " from cpu " + tr,                 // 1e308 still fits float64
+	}
+	formerlyDefective := []string{
+		"select f + 1h from cpu " + tr,
+		"select (1h) from cpu " + tr,
+		"select * + f from cpu " + tr,
+		"select sum(f, 1h + g) from cpu " + tr,
+		"select f from cpu " + tr + " group by host having f > 1h + 2",
+		"select f from cpu " + tr + " group by time(9223372036854776s)",
+		"select f from cpu " + tr + " group by time(18446744073709552m)",
+		"select f + 9" + strings.Repeat("9", 320) + " from cpu " + tr,
 	}
 	a := newAcc()
 	r := e.c.Rand("regression")
-	for _, text := range texts {
+	wire := func(s stmt.Statement, text string) {
+		switch x := s.(type) {
+		case *stmt.Query:
+			e.checkQueryWire(x, r, "sql", text, a)
+		case *stmt.MetricMetadata:
+			e.checkMetadataWire(x, r, "sql", text, a)
+		}
+	}
+	for _, text := range mustAccept {
 		s, err, _ := safeParse(text)
 		if err != nil || s == nil {
 			a.count("regression_text_rejected", 1)
@@ -1064,12 +1086,19 @@ func (e *engine) runRegressionTexts() {
 			continue
 		}
 		a.count("regression_texts_checked", 1)
-		switch x := s.(type) {
-		case *stmt.Query:
-			e.checkQueryWire(x, r, "sql", text, a)
-		case *stmt.MetricMetadata:
-			e.checkMetadataWire(x, r, "sql", text, a)
+		wire(s, text)
+	}
+	for _, text := range formerlyDefective {
+		s, err, _ := safeParse(text)
+		if err != nil || s == nil {
+			a.count("regression_formerly_defective_text_now_rejected", 1)
+			if err != nil {
+				a.count("regression_formerly_defective_reject_"+rejectBucket(err), 1)
+			}
+			continue
 		}
+		a.count("regression_formerly_defective_text_accepted", 1)
+		wire(s, text)
 	}
 	e.flush(a)
 }
